@@ -203,11 +203,20 @@ def handleWs (vals toks : String) : String :=
   | _, _ => "bad-op"
 end TokDrv
 
+/-- npm workspaces: no model of the workspace layout, the verdict is the specification's — `Spec.substitute` on the requirement
+list the case carries (the real `Read` of the root) -/
+def handleNws (us before : String) : String :=
+  match NpmDrv.parseUps us, NpmDrv.parseReqs before with
+  | some us, some rb => s!"r=ok spec={NpmDrv.showReqs (Scalibr.Npm.substitute rb us)}"
+  | _, _ => "bad-op"
+
 def handle (line : String) : String :=
   match line.splitOn " " with
+  | ["nws", _layout, us, before] => handleNws us before
   | ["npm", a, b, c, u, before] => NpmDrv.handle a b c u before
   | ["pp", a, b] => PomDrv.handlePP a b
   | ["pch", _layout, us, before] => PomDrv.handlePch us before
+  | ["prm", _layout, us, before] => PomDrv.handlePch us before       -- remote parent / BOM import: specification verdict only, as pch
   | ["ws", _kind, vals, toks, _src] => TokDrv.handleWs vals toks
   | ["pom", pv, ds, ps, us, rb] => PomDrv.handlePom pv ds ps us rb
   | ["pomc", pv, ds, ps, us, rb] => PomDrv.handlePom pv ds ps us rb   -- comment inside the first <version> (layout only)
